@@ -204,14 +204,20 @@ def _register_dict_header(reg):
     # urllib.request.parse_http_list: splits at top-level commas, keeps quoted strings together; total (trusted)
     reg.overrides["std:urllib.request.parse_http_list"] = lambda interp: VBuiltin(
         "urllib.request.parse_http_list", lambda it, a, k, n: it.fresh("List[str]", "http_list"))
+    reg.spec("unq1(v)", "v[1:-1] if (len(v) >= 2 and v[:1] == '\"' and v[-1:] == '\"') else v")
     reg.contract(
         "werkzeug/http.py:parse_list_header", prop="C07,C06", params={"value": "str"}, returns="List[str]", modifies=[],
         ensures=["len(result) >= 0"], raises={},
         loops={0: {"inv": ["len(result) == _i"], "types": {"result": "List[str]"}}},
     )
     reg.contract(
-        "werkzeug/http.py:parse_dict_header", prop=P, params={"value": "str"}, modifies=[], returns="Dict[str, Optional[str]]",
+        "werkzeug/http.py:parse_dict_header", prop="C07,C06", params={"value": "str"}, modifies=[], returns="Dict[str, Optional[str]]",
         ensures=["True"], raises={},
+        # C06: what is stored for a plain key is the text after '=' with ONE pair of surrounding double quotes removed (a
+        # value that itself begins or ends with a quote keeps it: dump_header(parse_dict_header(x)) stays x)
+        ghost_after={"result[key] = ...": [
+            "assert implies(item.partition('=')[1] == '=' and item.partition('=')[0].strip()[-1:] != '*', "
+            "               result[key] == unq1(item.partition('=')[2].strip()))"]},
         replay=_replay_dict_header,
         loops={0: {"inv": ["True"], "types": {"result": "Dict[str, Optional[str]]", "value": "str"}}},
     )
